@@ -192,7 +192,35 @@ var pktzCodecs = []pktzCodec{
 	{"av1", func(*Rand) payloader { return &codecs.AV1Payloader{} }, pktzAV1Payload, false},
 }
 
-// pktzClockValue draws a Unix-nanosecond instant: mostly 2015–2035, sometimes an edge.
+// pktzEraEndNs is the first Unix nanosecond after the NTP era that contains the Unix epoch
+// (2036-02-07 06:28:16 UTC): (2^32 − 2208988800)·10^9.  C06's "holding the send instant" is only
+// demanded for clock readings in [0, pktzEraEndNs) (lean/Driver/Kinds/Pktz.lean opInText); a
+// history with a reading outside is correspondence only.
+const pktzEraEndNs = int64(2085978496) * 1000000000
+
+// pktzClockValueIn draws a Unix-nanosecond instant INSIDE [0, pktzEraEndNs): mostly 2015–2035,
+// sometimes an edge (the epoch, whole seconds, the last nanoseconds of the era, a 64 s wrap of
+// the 6.18 fixed-point field).
+func pktzClockValueIn(r *Rand) int64 {
+	switch r.Intn(10) {
+	case 0:
+		return int64(r.Pick(0, 1, 999999999, 1000000000, 1000000001))
+	case 1:
+		return int64(r.U64() % uint64(pktzEraEndNs))
+	case 2:
+		// the last nanoseconds before the NTP era rolls over, and the last whole second
+		return pktzEraEndNs - 1 - int64(r.Pick(0, 1, 2, 3, 999999999, 1000000000))
+	case 3:
+		// abs-send-time is 6.18 fixed point seconds: wraps every 64 s
+		return (int64(1700000000)/64*64+64)*1000000000 + int64(r.Range(-5, 5))
+	default:
+		return int64(1420070400+r.Intn(631152000))*1000000000 + int64(r.Intn(1000000000))
+	}
+}
+
+// pktzClockValue draws a Unix-nanosecond instant: mostly 2015–2035, sometimes an edge, including
+// instants before 1970 and after the era roll-over in 2036 (outside C06's text: the model must
+// still agree with the code there).
 func pktzClockValue(r *Rand) int64 {
 	switch r.Intn(10) {
 	case 0:
